@@ -98,6 +98,12 @@ def run_query_case(case):
         rec["exc"] = "none"
         HITS["n"] = 0
         world.PredicatePlan.reset(ev.get("at", 0))
+        ambient = []
+        from entity_query_language import symbolic_mode as _sm, rule_mode as _rm
+        for kind in {"none": [], "query": ["q"], "rule": ["r"], "nested": ["q", "r"]}[ev.get("ambient", "none")]:
+            cm = _sm() if kind == "q" else _rm()
+            cm.__enter__()
+            ambient.append(cm)
         try:
             if op == "drain":
                 rec["rows"] = []
@@ -149,6 +155,10 @@ def run_query_case(case):
         except Exception as e:
             rec["exc"] = exc_name(e)
             rec["exc_msg"] = str(e)[:200]
+        finally:
+            for cm in reversed(ambient):
+                cm.__exit__(None, None, None)
+        rec["symcalls"] = sum(1 for m in world.PredicatePlan.modes if m)
         rec["hits"] = HITS["n"]
         rec["mutated"] = snapshot() != snap0
         rec["calls"] = world.PredicatePlan.calls
